@@ -12,20 +12,21 @@ from common import VERIF
 IMPORTS = "From Verif Require Import model.Base model.Tuner.\nOpen Scope Q_scope.\n"
 
 PRELUDE = r"""
-Definition run_case := (params * oracles * nat * list event * outcome * list (nat * status) * list status)%type.
+(* first component: start_jobs_without_delay (true: run, false: run_b) *)
+Definition run_case := (bool * params * oracles * nat * list event * outcome * list (nat * status) * list status)%type.
 Definition smap_eqb (a b : list (nat * status)) : bool :=
   list_eqb (fun x y => Nat.eqb (fst x) (fst y) && status_eqb (snd x) (snd y)) a b.
 Definition chk_run (c : run_case) : bool :=
-  let '(prm, o, fuel, itrace, iout, ismap, iw) := c in
-  let '(st, out) := run prm o fuel in
+  let '(sjwd, prm, o, fuel, itrace, iout, ismap, iw) := c in
+  let '(st, out) := if sjwd then run prm o fuel else run_b prm o fuel in
   list_eqb event_eqb (rev (s_trace st)) itrace
   && list_eqb Z.eqb (outcome_code out) (outcome_code iout)
   && smap_eqb (s_smap st) ismap
   && list_eqb status_eqb (map (fun t => b_w (s_bt st t)) (seq 0 (s_ntrials st))) iw.
 (* diagnostics: (first differing trace index, model event there, model outcome, model status map equal?, workers equal?) *)
 Definition diag_run (c : run_case) :=
-  let '(prm, o, fuel, itrace, iout, ismap, iw) := c in
-  let '(st, out) := run prm o fuel in
+  let '(sjwd, prm, o, fuel, itrace, iout, ismap, iw) := c in
+  let '(st, out) := if sjwd then run prm o fuel else run_b prm o fuel in
   let mt := rev (s_trace st) in
   let d := first_diff mt itrace 0 in
   (d, match d with Some i => nth_error mt i | None => None end, out, smap_eqb (s_smap st) ismap,
@@ -73,6 +74,9 @@ def gen_case(rng, rich_criterion=False, small=False):
     params = dict(n_workers=n_workers, wait=rng.random() < 0.4, max_failures=rng.choice([0, 1, 2, 3, 50, 50]),
                   criterion=gen_criterion(rng, rich_criterion))
     params["async"] = rng.random() < 0.75
+    if rng.random() < 0.12:
+        # start_jobs_without_delay=False: outside the properties' quantifier; model correspondence only (run_b)
+        params["sjwd"] = False
     style = rng.choice(["plain", "plain", "pausey", "stoppy", "faulty", "quiet", "exhaust", "chaos"])
     profile = dict(polls=rng.choice([6, 10, 16, 25, 40]) if not small else rng.randint(1, 4),
                    max_reports=rng.choice([1, 2, 3, 3]), ts_jitter=rng.choice([0, 3, 9]),
@@ -111,8 +115,8 @@ def replayable(case, out):
 
 def coq_case(case, out):
     T = scripted.coq_terms()
-    return "((%s,\n  %s,\n  %s, %s,\n  %s, %s, %s) : run_case)" % (
-        T["params"](case["params"]), T["oracles"](out["record"]), "%d%%nat" % (out["iterations"] + 2),
+    return "((%s, %s,\n  %s,\n  %s, %s,\n  %s, %s, %s) : run_case)" % (
+        "true" if case["params"].get("sjwd", True) else "false", T["params"](case["params"]), T["oracles"](out["record"]), "%d%%nat" % (out["iterations"] + 2),
         T["trace"](out["trace"]), T["outcome"](out["outcome"]), T["smap"](out["smap"]), T["statuses"](out["workers"]))
 
 
@@ -397,7 +401,7 @@ def histograms(ctx, case, out):
     p = case["params"]
     ctx.h("n_workers", p["n_workers"])
     ctx.h("style", case.get("style", "replay"))
-    ctx.h("flags", "async=%s,wait=%s" % (p["async"], p["wait"]))
+    ctx.h("flags", "async=%s,wait=%s" % (p["async"], p["wait"]) + ("" if p.get("sjwd", True) else ",start_jobs_without_delay=False"))
     ctx.h("outcome", out["outcome"][0])
     ctx.h("polls", min(out["iterations"] // 5 * 5, 60))
     ctx.h("criterion_fields", ",".join(sorted(k.replace("max_", "").replace("num_", "") for k in (p.get("criterion") or {}))) or "-")
@@ -471,8 +475,15 @@ def scripted_runs(ctx, cases, checker, prop_name, shard=20):
         if len(ctx.samples) < 2 and 20 < len(out["trace"]) < 80:
             ctx.sample(dict(params=case["params"], style=case.get("style"), trace_head=out["trace"][:25],
                             outcome=out["outcome"], status_map=out["smap"]))
-        for what, sig in checker(case["params"], out):
-            ctx.violation("property", what, case=rep, signature=sig)
+        if case["params"].get("sjwd", True):
+            for what, sig in checker(case["params"], out):
+                ctx.violation("property", what, case=rep, signature=sig)
+        else:
+            polled = {t for ev in out["trace"] if ev[0] == "b_fetch" for t in ev[1]}
+            started = [i for i, ev in enumerate(out["trace"]) if ev[0] == "b_start"]
+            later_poll = lambda i: any(ev[0] == "b_fetch" for ev in out["trace"][i:])
+            lost = [out["trace"][i][1] for i in started if out["trace"][i][1] not in polled and later_poll(i)]
+            ctx.h("sjwd_false", "started_trial_never_polled" if lost else "no_lost_trial")
         terms.append(coq_case(case, out))
         meta.append((rep, out))
     if terms:
